@@ -1,6 +1,8 @@
 package main
 
 import (
+	"fmt"
+
 	"github.com/tetratelabs/wazero/verif/wb"
 )
 
@@ -20,7 +22,14 @@ const (
 	KCIMismatch
 	KCIOOB // call_indirect beyond the table
 	KUnaligned
-	KRec0
+	KOkAtomic // succeeding: atomic rmw.add + load + notify + wait32(zero timeout, value mismatch) on the own memory
+	KAOOB0    // first of nAOOB kinds: an atomic access at an aligned address >= memory size (see aoobTable)
+)
+
+const nAOOB = 35
+
+const (
+	KRec0 = KAOOB0 + nAOOB + iota
 	KRec1
 	KRec64
 	KRec1024
@@ -39,14 +48,70 @@ const (
 	NKinds
 )
 
+// aoobTable: every family of atomic instruction that takes the memory's lock / waiter list in the
+// interpreter (or a Go call in the compiler), at address 65536 (aligned for every width, out of bounds).
+type aoobKind struct {
+	name  string
+	op    uint32 // 0xfe sub-opcode
+	align uint32 // natural alignment exponent (required by validation)
+	args  []byte // operand types after the address
+}
+
+var aoobTable = func() []aoobKind {
+	t := []aoobKind{
+		{"aoob-i32.load", 0x10, 2, nil}, {"aoob-i64.load", 0x11, 3, nil},
+		{"aoob-i32.store", 0x17, 2, []byte{wb.I32}}, {"aoob-i64.store", 0x18, 3, []byte{wb.I64}},
+	}
+	forms := []struct {
+		suffix string
+		align  uint32
+		vt     byte
+	}{{"i32.rmw", 2, wb.I32}, {"i64.rmw", 3, wb.I64}, {"i32.rmw8", 0, wb.I32}, {"i32.rmw16", 1, wb.I32},
+		{"i64.rmw8", 0, wb.I64}, {"i64.rmw16", 1, wb.I64}, {"i64.rmw32", 2, wb.I64}}
+	for _, o := range []struct {
+		name string
+		base uint32
+		n    int
+	}{{"add", 0x1e, 1}, {"and", 0x2c, 1}, {"xchg", 0x41, 1}, {"cmpxchg", 0x48, 2}} {
+		for i, f := range forms {
+			args := []byte{f.vt}
+			if o.n == 2 {
+				args = []byte{f.vt, f.vt}
+			}
+			t = append(t, aoobKind{"aoob-" + f.suffix + "." + o.name, o.base + uint32(i), f.align, args})
+		}
+	}
+	t = append(t, aoobKind{"aoob-notify", 0x00, 2, []byte{wb.I32}},
+		aoobKind{"aoob-wait32", 0x01, 2, []byte{wb.I32, wb.I64}}, aoobKind{"aoob-wait64", 0x02, 3, []byte{wb.I64, wb.I64}})
+	if len(t) != nAOOB {
+		panic("nAOOB")
+	}
+	return t
+}()
+
+func isAOOB(k int) bool { return k >= KAOOB0 && k < KAOOB0+nAOOB }
+
 const NBKinds = KRec1024 + 1 // kinds available in the plain instance B
 
-var kindNames = [NKinds]string{
-	"ok", "deepok", "unreachable", "div0", "overflow", "invalidconv", "oobstore", "oobfill", "tableoob", "cinull", "cimismatch", "cioob",
-	"unaligned", "rec0", "rec1", "rec64", "rec1024",
-	"panic-error", "panic-string", "panic-runtime", "panic-customerr", "panic-value",
-	"procexit0", "procexit3", "close0", "close7", "deephost", "closeb7",
-}
+var kindNames = func() (n [NKinds]string) {
+	for i, s := range []string{"ok", "deepok", "unreachable", "div0", "overflow", "invalidconv", "oobstore", "oobfill", "tableoob", "cinull",
+		"cimismatch", "cioob", "unaligned", "okatomic"} {
+		n[i] = s
+	}
+	for i, a := range aoobTable {
+		n[KAOOB0+i] = a.name
+	}
+	for i, s := range []string{"rec0", "rec1", "rec64", "rec1024", "panic-error", "panic-string", "panic-runtime", "panic-customerr",
+		"panic-value", "procexit0", "procexit3", "close0", "close7", "deephost", "closeb7"} {
+		n[KRec0+i] = s
+	}
+	for i, s := range n {
+		if s == "" {
+			panic(fmt.Sprint("kind without a name: ", i))
+		}
+	}
+	return
+}()
 
 // DeepFrames is below the interpreter's frame ceiling (2000) and far above the compiler's initial 10 KiB stack.
 const DeepFrames = 1500
@@ -61,6 +126,8 @@ const (
 	CellPost  = 8  // written after it (must stay untouched when the op fails)
 	CellAux   = 16 // result of the possibly-trapping instruction
 	CellCatch = 24 // value returned by the re-entering host function
+	CellAtom  = 32 // counter incremented by okatomic with i32.atomic.rmw.add
+	CellAtomR = 40 // okatomic: 10*notify result + wait32 result (= 1: nobody woken, "not-equal")
 	TailStart = 65520
 	PageSize  = 65536
 )
@@ -111,7 +178,7 @@ func buildGuest(isA bool) []byte {
 		m.ImportFunc(hostModName, "gc", nil, []byte{i32})
 		m.ImportFunc(hostModName, "closeb", []byte{i32}, nil)
 	}
-	m.Mem = &wb.Limits{Min: 1, Max: 1, HasMax: true}
+	m.Mem = &wb.Limits{Min: 1, Max: 1, HasMax: true, Shared: true} // shared: memory.atomic.wait needs it
 	g := m.AddGlobal(i32, true, wb.CI32(0))
 	skind := m.AddGlobal(i32, true, wb.CI32(0))
 	sk := m.AddGlobal(i32, true, wb.CI32(0))
@@ -197,6 +264,13 @@ func buildGuest(isA bool) []byte {
 			a.LocalGet(0).I32Const(int32(nk+1)).CallIndirect(opType, 0)
 		case KCIOOB:
 			a.LocalGet(0).I32Const(1000).CallIndirect(opType, 0)
+		case KOkAtomic:
+			a.I32Const(CellAtom).I32Const(1).AtomicMem(0x1e, 2, 0).Drop() // i32.atomic.rmw.add
+			a.I32Const(CellAtomR)
+			a.I32Const(CellAtom).I32Const(0).AtomicMem(0x00, 2, 0).I32Const(10).Op(0x6c) // notify(count 0) * 10
+			// wait32(addr, expected = current+1 (mismatch), timeout 0) -> 1 "not-equal"
+			a.I32Const(CellAtom).I32Const(CellAtom).AtomicMem(0x10, 2, 0).I32Const(1).Op(0x6a).I64Const(0).AtomicMem(0x01, 2, 0)
+			a.Op(0x6a).Mem(0x36, 2, 0)
 		case KUnaligned:
 			a.I32Const(CellAux).I32Const(1).AtomicMem(0x10, 2, 0).Mem(0x36, 2, 0) // i32.atomic.load at address 1
 		case KRec0, KRec1, KRec64, KRec1024:
@@ -213,6 +287,17 @@ func buildGuest(isA bool) []byte {
 			a.I32Const(7).Call(impClose)
 		case KCloseB7:
 			a.I32Const(7).Call(impCloseB)
+		}
+		if isAOOB(k) {
+			ak := aoobTable[k-KAOOB0]
+			a.I32Const(PageSize)
+			for _, t := range ak.args {
+				a.Const(t, 0)
+			}
+			a.AtomicMem(ak.op, ak.align, 0)
+			if ak.op != 0x17 && ak.op != 0x18 { // everything but the stores leaves a result
+				a.Drop()
+			}
 		}
 		post(a, g, 0)
 		ops[k] = m.AddFunc([]byte{i32}, nil, nil, a.B)
